@@ -5537,14 +5537,16 @@ class CodegenCtx:
     def _escape_string(self, value: Union[bytes, str]):
         result = ""
         if type(value) is str:
-            bytes_value = value.encode('utf-8')
+            # string values hold one byte per character (see _convert_string)
+            bytes_value = value.encode('latin-1')
         else:
             bytes_value = value
         for i in bytes_value:
             if chr(i) in ["\\", '"']:
                 result += "\\" + chr(i)
             elif not (32 <= i < 127):
-                result += "\\x{:02x}".format(i)
+                # fixed-width octal: unlike a hexadecimal escape, a following digit can never be absorbed into the escape
+                result += "\\{:03o}".format(i)
             else:
                 result += chr(i)
         return result
@@ -5558,10 +5560,8 @@ class CodegenCtx:
         Must ensure value is short enough first.
         """
 
-        if isinstance(value, str):
-            escaped_length = len(value.encode('utf-8'))
-        else:
-            escaped_length = len(value)
+        # one byte per character, for str and bytes alike
+        escaped_length = len(value)
 
         return f"memcpy(state->c.{into.name}, \"{self._escape_string(value)}\", {escaped_length if not into.str_null else escaped_length+1});"
 
